@@ -75,13 +75,14 @@ def stores_equal(a, b):
     return True, ""
 
 
-def fn_level_env(crate, fn, upto=None):
+def fn_level_env(crate, fn, upto=None, hook=None):
     """Normalise the scalar `let`s at the top level of fn (before node `upto`) into an env hid -> Rat."""
     env = {}
     b = fn["body"]
     while b.get("k") == "blk":
         b = b["b"]
     N = e1.Norm(crate, env)
+    N.reduce_hook = hook
     for s in b["stmts"]:
         if upto is not None and (s is upto or any(x is upto for x in walk(s))):
             break
